@@ -621,6 +621,28 @@ theorem zrange_eq_batch {st : RStore} {a : AbsState} (hc : Consistent st) (h : R
     List.map_take]
   rfl
 
+/-- … and the `WITHSCORES` reply carries their ready times -/
+theorem zrange_eq_batchS {st : RStore} {a : AbsState} (hc : Consistent st) (h : RelQ st a) (now : Int) (k : Nat) :
+    zrangeUpToS st.pQueue (some now) (some k) = ((AbsState.readySorted a.queue now).take k).map qkey := by
+  rw [zrangeUpToS_eq]
+  show (zsort (zsel st.pQueue (some now))).take k = _
+  rw [← zsort_congr (ready_perm_zsel hc h now) (ready_keys_nodup h.nodup now), ← readySorted_map, List.map_take]
+
+/-- the specification's delivery order is non-decreasing in the ready time -/
+theorem readySorted_sorted {q : List QItem} (hnd : (q.map (·.id)).Nodup) (now : Int) :
+    (AbsState.readySorted q now).Pairwise fun x y => x.ready ≤ y.ready := by
+  have h1 : ((AbsState.readySorted q now).map qkey).Pairwise zlt := by
+    rw [readySorted_map]
+    refine zsort_sorted _ ?_
+    rw [List.map_map]
+    exact ((List.filter_sublist (l := q)).map _).nodup hnd
+  rw [List.pairwise_map] at h1
+  refine h1.imp ?_
+  intro x y hxy
+  unfold zlt qkey at hxy
+  simp only at hxy
+  omega
+
 /-! ## probe queue: one pop round -/
 
 /-- the specification's queue after a batch was taken out -/
@@ -674,20 +696,31 @@ theorem batch_items {st : RStore} {a : AbsState} (h : RelQ st a) (batch : List Q
   rw [List.filterMap_map]
   exact filterMap_eq_map_of_some _ _ _ (fun x hx => ((h.mem_iff x).1 (hsub x hx)).1)
 
+/-- … each with the score of the `WITHSCORES` reply at the same position -/
+theorem batch_itemsS {st : RStore} {a : AbsState} (h : RelQ st a) (batch : List QItem) (hsub : ∀ x ∈ batch, x ∈ a.queue) :
+    popItemsS st (batch.map (·.id)) ((batch.map qkey).map (·.2)) = batch.map fun x => ((x.probe, x.expires), x.ready) := by
+  induction batch with
+  | nil => rfl
+  | cons x xs ih =>
+    simp only [List.map_cons]
+    rw [popItemsS_cons, ((h.mem_iff x).1 (hsub x List.mem_cons_self)).1, ih (fun y hy => hsub y (List.mem_cons_of_mem _ hy))]
+    rfl
+
 /-- the items of a batch that are returned (not expired) -/
 def keptOf (batch : List QItem) (now : Int) : List QItem := batch.filter fun x => !x.expired now
 
 /-- the machine's bookkeeping after a pop batch is the specification's -/
-theorem popNext_batch (n : Int) (got : List Probe) (e : Nat) (batch : List QItem) (clock : Int) (hne : batch ≠ []) :
-    popNext n got e (batch.map fun x => (x.probe, x.expires)) clock =
-      if (got ++ (keptOf batch clock).map (·.probe)).length < n.toNat then
-        .popRange (got ++ (keptOf batch clock).map (·.probe)) (e + (batch.length - (keptOf batch clock).length))
-      else .done (.probes (got ++ (keptOf batch clock).map (·.probe)) (e + (batch.length - (keptOf batch clock).length))) := by
-  have hk : (batch.map fun x => (x.probe, x.expires)).filter (fun pe => !expiredAt pe.2 clock) =
-      (keptOf batch clock).map fun x => (x.probe, x.expires) := by
+theorem popNext_batch (n : Int) (got : List (Probe × Int)) (e : Nat) (batch : List QItem) (clock : Int) (hne : batch ≠ []) :
+    popNext n got e (batch.map fun x => ((x.probe, x.expires), x.ready)) clock =
+      if (got ++ (keptOf batch clock).map fun x => (x.probe, x.ready)).length < n.toNat then
+        .popRange (got ++ (keptOf batch clock).map fun x => (x.probe, x.ready)) (e + (batch.length - (keptOf batch clock).length))
+      else .done (.probes (finishBatch (got ++ (keptOf batch clock).map fun x => (x.probe, x.ready)))
+        (e + (batch.length - (keptOf batch clock).length))) := by
+  have hk : (batch.map fun x => ((x.probe, x.expires), x.ready)).filter (fun it => !expiredAt it.1.2 clock) =
+      (keptOf batch clock).map fun x => ((x.probe, x.expires), x.ready) := by
     rw [List.filter_map]; rfl
   unfold popNext
-  have hne' : (batch.map fun x => (x.probe, x.expires)).isEmpty = false := by
+  have hne' : (batch.map fun x => ((x.probe, x.expires), x.ready)).isEmpty = false := by
     rw [List.isEmpty_map]; cases batch with
     | nil => exact absurd rfl hne
     | cons _ _ => rfl
@@ -736,48 +769,96 @@ theorem dropBatch_length_lt {q batch : List QItem} {x : QItem} (hx : x ∈ batch
   have : (batch.any fun b => b.id == x.id) = true := List.any_eq_true.2 ⟨x, hx, by simp⟩
   simp [this]
 
-/-- the rounds of `PopMany` (range, batch, range, …) against `popManyLoop`, from any intermediate point -/
+/-- the rounds of `PopMany` (range, batch, range, …) against `popManyLoop`, from any intermediate point.  The machine holds
+the fetched items with their scores (`got`), the specification the payloads (`got.map (·.1)`).  Run alone, the rounds fetch
+in score order (`hsorted`) and everything still queued is not earlier than anything fetched (`hbelow`): the final stable
+sort of the machine is the identity (`finishBatch_of_sorted`) -/
 theorem popLoop_refines (clock : Int) (n : Int) (fresh : Nat) :
-    ∀ (fuelA : Nat) (st : RStore) (a : AbsState) (got : List Probe) (e : Nat) (fuelM : Nat),
+    ∀ (fuelA : Nat) (st : RStore) (a : AbsState) (got : List (Probe × Int)) (e : Nat) (fuelM : Nat),
       Consistent st → RelQ st a → got.length < n.toNat → a.queue.length < fuelA → 2 * a.queue.length + 1 ≤ fuelM →
+      got.Pairwise (fun x y => x.2 ≤ y.2) → (∀ p ∈ got, ∀ x ∈ a.queue, p.2 ≤ x.ready) →
       PopOut st (runQ st clock fresh (.popMany n) (.popRange got e) fuelM) a
-        (AbsState.popManyLoop clock n.toNat fuelA a.queue got e) fresh := by
+        (AbsState.popManyLoop clock n.toNat fuelA a.queue (got.map (·.1)) e) fresh := by
   intro fuelA
   induction fuelA with
   | zero => intro st a got e fuelM _ _ _ hlen; omega
   | succ fuelA ih =>
-    intro st a got e fuelM hc h hgot hlen hfuel
+    intro st a got e fuelM hc h hgot hlen hfuel hsorted hbelow
     obtain ⟨m, rfl⟩ : ∃ m, fuelM = m + 1 := ⟨fuelM - 1, by omega⟩
     obtain ⟨q1, q2, q3⟩ := qstep_popRange st clock fresh n got e
     have hwant : (n - (got.length : Int)).toNat = n.toNat - got.length := by omega
     have hnge : ¬ got.length ≥ n.toNat := by omega
+    have hgl : (got.map (·.1)).length = got.length := List.length_map _
     have hfr : (if false = true then fresh + 1 else fresh) = fresh := rfl
-    rw [runQ_succ_live _ _ _ _ _ _ rfl, q1, q2, q3, hfr, hwant, zrange_eq_batch hc h, List.isEmpty_map, popManyLoop_succ,
-      if_neg hnge]
-    generalize hbatch : (AbsState.readySorted a.queue clock).take (n.toNat - got.length) = batch
+    rw [runQ_succ_live _ _ _ _ _ _ rfl, q1, q2, q3, hfr, hwant, zrange_eq_batch hc h, zrange_eq_batchS hc h, List.isEmpty_map,
+      popManyLoop_succ, hgl, if_neg hnge]
+    have hrs := readySorted_sorted h.nodup clock
+    rw [← List.take_append_drop (n.toNat - got.length) (AbsState.readySorted a.queue clock)] at hrs
+    have hmemrs : ∀ x, x ∈ AbsState.readySorted a.queue clock →
+        x ∈ (AbsState.readySorted a.queue clock).take (n.toNat - got.length) ∨
+        x ∈ (AbsState.readySorted a.queue clock).drop (n.toNat - got.length) := by
+      intro x hx
+      rw [← List.take_append_drop (n.toNat - got.length) (AbsState.readySorted a.queue clock)] at hx
+      exact List.mem_append.1 hx
+    generalize hbatch : (AbsState.readySorted a.queue clock).take (n.toNat - got.length) = batch at hrs hmemrs
     have hsub : ∀ x ∈ batch, x ∈ a.queue := by
       intro x hx
       rw [← hbatch] at hx
       exact (mem_readySorted.1 ((List.take_sublist _ _).subset hx)).1
+    have hready : ∀ x ∈ batch, x.ready ≤ clock := by
+      intro x hx
+      rw [← hbatch] at hx
+      exact (mem_readySorted.1 ((List.take_sublist _ _).subset hx)).2
     by_cases hb : batch.isEmpty = true
-    · rw [if_pos hb, if_pos hb, runQ_done]
+    · rw [if_pos hb, if_pos hb, runQ_done, finishBatch_of_sorted got hsorted]
       exact ⟨rfl, h, hc, rfl, rfl, rfl⟩
     · rw [if_neg hb, if_neg hb]
       have hne : batch ≠ [] := fun e => hb (by rw [e]; rfl)
       obtain ⟨x, hx⟩ := List.exists_mem_of_ne_nil batch hne
       have hpos : 0 < a.queue.length := List.length_pos_of_mem (hsub x hx)
       obtain ⟨m', rfl⟩ : ∃ m', m = m' + 1 := ⟨m - 1, by omega⟩
-      obtain ⟨p1, p2, p3⟩ := qstep_popExec st clock fresh n got e (batch.map (·.id))
+      obtain ⟨p1, p2, p3⟩ := qstep_popExec st clock fresh n got e (batch.map (·.id)) ((batch.map qkey).map (·.2))
       have hc' := popBatch_consistent hc (batch.map (·.id))
       have h' := relQ_popBatch h batch
       have hlt' := dropBatch_length_lt hx (hsub x hx)
-      rw [runQ_succ_live _ _ _ _ _ _ rfl, p1, p2, p3, hfr, batch_items h batch hsub, popNext_batch n got e batch clock hne]
-      by_cases hlt : (got ++ (keptOf batch clock).map (·.probe)).length < n.toNat
+      -- the new items are in order, after the old ones, and before everything that stays queued
+      have hsorted' : (got ++ (keptOf batch clock).map fun x => (x.probe, x.ready)).Pairwise (fun x y => x.2 ≤ y.2) := by
+        rw [List.pairwise_append]
+        refine ⟨hsorted, ?_, ?_⟩
+        · rw [List.pairwise_map]
+          exact ((List.pairwise_append.1 hrs).1).sublist List.filter_sublist
+        · intro p hp y hy
+          obtain ⟨z, hz, rfl⟩ := List.mem_map.1 hy
+          exact hbelow p hp z (hsub z (List.mem_filter.1 hz).1)
+      have hbelow' : ∀ p ∈ got ++ (keptOf batch clock).map (fun x => (x.probe, x.ready)),
+          ∀ y ∈ dropBatch a.queue batch, p.2 ≤ y.ready := by
+        intro p hp y hy
+        obtain ⟨hyq, hyb⟩ := mem_dropBatch.1 hy
+        rcases List.mem_append.1 hp with hp | hp
+        · exact hbelow p hp y hyq
+        · obtain ⟨z, hz, rfl⟩ := List.mem_map.1 hp
+          have hzb : z ∈ batch := (List.mem_filter.1 hz).1
+          show z.ready ≤ y.ready
+          by_cases hyr : y.ready ≤ clock
+          · rcases hmemrs y (mem_readySorted.2 ⟨hyq, hyr⟩) with hy1 | hy1
+            · exact absurd (List.mem_map.2 ⟨y, hy1, rfl⟩) hyb
+            · exact (List.pairwise_append.1 hrs).2.2 z hzb y hy1
+          · have := hready z hzb
+            omega
+      have hmap : (got ++ (keptOf batch clock).map fun x => (x.probe, x.ready)).map (·.1) =
+          got.map (·.1) ++ (keptOf batch clock).map (·.probe) := by
+        rw [List.map_append, List.map_map]; rfl
+      have hlenEq : (got ++ (keptOf batch clock).map fun x => (x.probe, x.ready)).length =
+          (got.map (·.1) ++ (keptOf batch clock).map (·.probe)).length := by
+        rw [← hmap, List.length_map]
+      rw [runQ_succ_live _ _ _ _ _ _ rfl, p1, p2, p3, hfr, batch_itemsS h batch hsub, popNext_batch n got e batch clock hne, ← hmap]
+      by_cases hlt : (got ++ (keptOf batch clock).map fun x => (x.probe, x.ready)).length < n.toNat
       · rw [if_pos hlt]
         obtain ⟨r1, r2, r3, r4, r5, r6⟩ := ih _ _ _ _ m' hc' h' hlt (by show (dropBatch a.queue batch).length < fuelA; omega)
-          (by show 2 * (dropBatch a.queue batch).length + 1 ≤ m'; omega)
+          (by show 2 * (dropBatch a.queue batch).length + 1 ≤ m'; omega) hsorted' hbelow'
         exact ⟨r1, r2, r3, r4, r5.trans (popBatch_insItems _ _), r6.trans (popBatch_insUpdated _ _)⟩
-      · rw [if_neg hlt, runQ_done, popManyLoop_full _ _ _ _ _ _ (by omega)]
+      · rw [if_neg hlt, runQ_done, popManyLoop_full _ _ _ _ _ _ (by rw [List.length_map]; omega),
+          finishBatch_of_sorted _ hsorted']
         exact ⟨rfl, h', hc', rfl, popBatch_insItems _ _, popBatch_insUpdated _ _⟩
 
 /-- **`PopMany(n)` run alone refines `AbsState.popMany`**: same probes in the same order, same expired count, related
@@ -806,6 +887,7 @@ theorem popMany_refines_aux {st : RStore} {a : AbsState} (hc : Consistent st) (h
     unfold AbsState.qCount at hsz
     rw [hb, ha]
     exact popLoop_refines clock n fresh (a.queue.length + 1) st a [] 0 fuel hc h (by simp; omega) (by omega) (by omega)
+      List.Pairwise.nil (fun p hp => by cases hp)
 
 /-! ## histories of instance-table / probe-queue calls -/
 
